@@ -1,1 +1,2 @@
 pub mod cmp;
+pub mod roundtrip;
